@@ -30,4 +30,6 @@ void vf_poly_free(vf_poly *p);
 /* +1 inside outer and outside all holes, -1 outside, 0 within `band` (radians in the
  * lat/lng plane) of some edge.  *mind (optional) = distance to the nearest edge */
 int vf_poly_side(const vf_poly *p, LatLng pt, ld band, ld *mind);
+/* polygon + resolution of a standard case (C07, C15) from a 64-bit seed; 0 if the generator rejected it */
+int vf_poly_case(uint64_t seed, vf_poly *P, int *res_out, char *desc, size_t dlen);
 #endif
